@@ -67,6 +67,7 @@ def _load():
         _lib = ctypes.CDLL(build())
         _lib.ext_last_error.restype = ctypes.c_char_p
         _lib.ext_cell_list_new.restype = ctypes.c_void_p
+        _lib.ext_cell_list_direct.restype = ctypes.c_void_p
         _lib.ext_cell_list_free.argtypes = [ctypes.c_void_p]
         _lib.ext_free.argtypes = [ctypes.c_void_p]
     return _lib
@@ -145,8 +146,19 @@ class CellListResult:
 
 
 class CellList:
-    def __init__(self, handle):
-        self._h = ctypes.c_void_p(handle)
+    def __init__(self, positions, indices=None, factors=None, cutoff=None):
+        if indices is None:  # internal: wrap an existing handle
+            self._h = ctypes.c_void_p(positions)
+            return
+        lib = _load()
+        P = _f(positions)
+        I = np.ascontiguousarray(np.asarray(list(indices) if not hasattr(indices, "dtype") else indices), dtype=np.int32)
+        F = _f(factors)
+        h = lib.ext_cell_list_direct(P.ctypes.data_as(_D), P.shape[0], I.ctypes.data_as(_I), F.ctypes.data_as(_D),
+                                     ctypes.c_double(cutoff))
+        if not h:
+            raise _err()
+        self._h = ctypes.c_void_p(h)
 
     def __del__(self):
         try:
